@@ -384,8 +384,8 @@ def families(quick: bool) -> List[Tuple[str, str]]:
     else:
         fam.append(("topo3", tup(
             product("dyadic", f"Dress(AllShapes(3, 3), {S(W1, WMH)}, {{1}})", "(SUBSET (1..3)) \\ {{}}", "{{}}", caps(nb=(12,))),
-            product("dyadic", f"Dress(AllShapes(2, 3), {S(W1, WM1, WH)}, {{1, 2}})", "{{1}, {1, 2}}", "{{}}", caps(nb=(12, 64), fl=(F0, F8))))))
-        fam.append(("topo4", tup(product("dyadic", f"Dress(AllShapes(4, 2), {S(W1, WMH, W3)}, {{1}})", "{{1}, {1, 2}, {2, 4}, {3}}", "{{}, {4}}", caps(nb=(12,), fl=(F0, F8))))))
+            product("dyadic", f"Dress(AllShapes(2, 3), {S(W1, WM1, WH)}, {{1}})", "{{1}, {1, 2}}", "{{}}", caps(nb=(12,), fl=(F0, F8))))))
+        fam.append(("topo4", tup(product("dyadic", f"Dress(AllShapes(4, 2), {S(W1, WMH, W3)}, {{1}})", "{{1}, {1, 2}, {2, 4}, {3}}", "{{}, {4}}", caps(nb=(12, 64), fl=(F0, F8))))))
         fam.append(("weights", tup(
             product("dyadic", f"Dress({shapes()}, {S(W1, WMH)}, {{1, 2}})", "{{1}, {1, 2}}", "{{}}", caps(fl=(F0, F8), nb=(12, 64))),
             product("dyadic", f"DressOne({shapes()}, {allw}, {{1, 2, 3}})", "{{1}, {1, 2}, {2, 4}, {3}, {1, 2, 3, 4}}", "{{}}", caps(fl=(F0, F8), nb=(8, 12, 64), rad=(2, 4))))))
